@@ -10,6 +10,7 @@ EXPLANATION = (
     "execute(..).map(into_bool).unwrap_or(false) false ⇒ Err(ViolatesScript). R3 environment provenance: CovenantEnv{parent_coinid ← this input's id, parent_cdh ← its coin data, "
     "spender_index ← its position, last_header ← history[height−1] (or the height-0 fallback)} and the spending tx. R4 heap layout: the 11 HADDR_* slots are pairwise distinct and each "
     "receives its designated component; Covenant::execute runs the covenant's own ops with that heap."
+    " R1 `loop/every-path`: no path to Ok goes around the loop over the inputs."
 )
 NOT_DECIDED = ["that the standard signature covenants accept exactly valid signatures (meaning of a VM program; needs execution)", "MelVM semantics (C10)"]
 ASSUMPTIONS = ["Transaction::covenants_as_map maps hash(covenant bytes) ↦ bytes (melstructs 0.3.3)"]
